@@ -102,9 +102,12 @@ def _prune(keep=8):
     except OSError:
         return
     bins.sort(key=os.path.getmtime, reverse=True)
+    # only binaries nobody used for hours: checks against several trees may run side by side
+    old = time.time() - 4 * 3600
     for p in bins[keep:]:
         try:
-            os.remove(p)
+            if os.path.getmtime(p) < old:
+                os.remove(p)
         except OSError:
             pass
     # go.mod copies made for scratch worktrees that are gone
@@ -124,7 +127,8 @@ def build(cmd, dirs, race=False, tags="verif"):
     """Returns the path of harness/cmd/<cmd> built against REPO's current working tree."""
     os.makedirs(CACHE, exist_ok=True)
     key = hashlib.sha256("|".join([repo_state(), harness_state(dirs + ["cmd/" + cmd]), tags,
-                                   "race" if race else "norace"]).encode()).hexdigest()[:20]
+                                   "race" if race else "norace", "cover" if verif.COVER_FLAGS() else ""]
+                                  ).encode()).hexdigest()[:20]
     out = os.path.join(CACHE, "%s%s-%s" % (cmd, "-race" if race else "", key))
     if os.path.exists(out):
         os.utime(out)
@@ -133,7 +137,7 @@ def build(cmd, dirs, race=False, tags="verif"):
     modfile = private_modfile()
     tmp = out + ".tmp%d" % os.getpid()
     gocmd = ["go", "build", "-modfile", modfile, "-tags", tags, "-o", tmp] + (["-race"] if race else []) \
-        + ["./cmd/" + cmd]
+        + verif.COVER_FLAGS() + ["./cmd/" + cmd]
     t0 = time.time()
     p = subprocess.run(gocmd, cwd=HARNESS, env=goenv(), capture_output=True, text=True)
     if p.returncode != 0:
